@@ -1045,14 +1045,14 @@ func ruleAlwaysCancels(r *Run, id string) {
 		}
 		n++
 		name := fnName(fn)
-		doneHeads := doneBranchHeads(fn)
+		doneHeads := append(doneBranchHeads(fn), onceGuardHeads(fn)...)
 		w := reachesFromEntryWithout(fn, func(ins ssa.Instruction) bool {
 			if !isReturn(ins) || ins.Block() == fn.Recover {
 				return false
 			}
 			for _, h := range doneHeads {
 				if h == ins.Block() || h.Dominates(ins.Block()) {
-					return false // the context is already cancelled on this branch
+					return false // the context is already cancelled on this branch, or an earlier call of Close got past an atomic once-guard
 				}
 			}
 			return true
@@ -2570,4 +2570,106 @@ func ruleNoTickerPerIteration(r *Run, id string, pkgs ...string) {
 	if n == 0 {
 		r.Undecided("ticker-paced loops", "no looping function creates a ticker")
 	}
+}
+
+// ruleCoupledFields: two plain fields of one struct that are written together — in the same basic block, on the same
+// object — at two or more places outside constructors form a pair whose halves describe one fact (a cached key and its
+// value, a value and its generation). A block that writes one half of such a pair on a shared object and not the other
+// leaves the pair describing something that never existed. (Engler et al.'s "a must be paired with b", with the
+// instances taken from the code itself: the rule is armed per pair only when every site but the deviant one agrees, and
+// there are at least two agreeing sites.)
+func ruleCoupledFields(r *Run, id string, pkgs ...string) {
+	r.Begin(id, "coupled fields change together: where two fields of a struct are stored in the same block on the same shared object at two or more places, no block stores one of them without the other", 0)
+	p := r.P
+	type site struct {
+		fn    *ssa.Function
+		block *ssa.BasicBlock
+		at    ssa.Instruction
+		other map[string]bool
+	}
+	stores := map[string][]site{} // field key -> sites
+	for _, fn := range p.Funcs {
+		okPkg := false
+		for _, pk := range pkgs {
+			if fnPkgPath(fn) == modPath+pk {
+				okPkg = true
+			}
+		}
+		if !okPkg || fn.Blocks == nil {
+			continue
+		}
+		for _, b := range fn.Blocks {
+			type st struct {
+				key  string
+				base string
+				at   ssa.Instruction
+			}
+			var sts []st
+			for _, ins := range b.Instrs {
+				s, ok := ins.(*ssa.Store)
+				if !ok {
+					continue
+				}
+				fa, isFA := s.Addr.(*ssa.FieldAddr)
+				if !isFA {
+					continue
+				}
+				bp := pathOf(fa.X)
+				if bp == nil || isLocalObject(bp) {
+					continue
+				}
+				sts = append(sts, st{fieldKeyOfAddr(fa), bp.String(), ins})
+			}
+			for i, a := range sts {
+				o := map[string]bool{}
+				for j, c := range sts {
+					if i != j && c.base == a.base && c.key != a.key {
+						o[c.key] = true
+					}
+				}
+				stores[a.key] = append(stores[a.key], site{fn, b, a.at, o})
+			}
+		}
+	}
+	keys := make([]string, 0, len(stores))
+	for k := range stores {
+		keys = append(keys, k)
+	}
+	sort.Strings(keys)
+	n := 0
+	for _, f := range keys {
+		ss := stores[f]
+		partners := map[string]int{}
+		for _, s := range ss {
+			for g := range s.other {
+				partners[g]++
+			}
+		}
+		for g, together := range partners {
+			if together < 2 || f > g && partners[g] == len(ss) && len(stores[g]) == len(ss) {
+				continue
+			}
+			// g's own sites must all carry f as well (the pair is symmetric) or the pair is not one
+			n++
+			for _, s := range ss {
+				if s.other[g] {
+					continue
+				}
+				// the other half is written elsewhere in the same function on every path to here or from here? not
+				// followed: same block only
+				r.Check(fmt.Sprintf("%s stores %s with %s", fnName(s.fn), shortKey(f), shortKey(g)), false, posOf(p, s.at), fnName(s.fn), fmt.Sprintf("%s and %s are written together at %d other place(s); here only %s is written", shortKey(f), shortKey(g), together, shortKey(f)))
+			}
+		}
+	}
+	r.Stat("coupled_pairs", n)
+	if n == 0 {
+		r.Check("coupled pairs", true, "", "", "no two fields are written together at two or more places")
+	}
+}
+
+func shortKey(k string) string {
+	if i := strings.LastIndexByte(k, '/'); i >= 0 {
+		return k[i+1:]
+	}
+	return k
 }
